@@ -24,6 +24,12 @@ variable {ν : Type} [HNum ν]
 /-- the side condition on the tunables holds for the constants regenerated from the current headers -/
 theorem gen_params_ok : hllParams.listFitsSet ∧ hllParams.keyBits = 26 := by decide
 
+/-- semantic obligation on the regenerated `INVERSE_POWERS_OF_2` table (entries 0..63, the ones HLL uses): entry i is the IEEE
+double 2^-i exactly (biased exponent 1023 - i, zero mantissa) — so the doubles kxq0 / kxq1 are sums of exact powers of two
+(`hll_kxq_exact` is about that sum). -/
+theorem gen_invPow2_exact : ∀ i, i < 64 → DSGen.hll_invPow2.getD i 0 = UInt64.ofNat ((1023 - i) * 2^52) := by
+  decide +kernel
+
 /-- HLL mode: every register is the maximum value of the coupons offered to its slot (0 if none) —
 for every target type and whether or not the sketch was started full-size. -/
 theorem hll_regs_max (p : Params) (hp : p.listFitsSet) (lgK : Nat) (tt : TType) (sf : Bool) (cs : List Nat)
